@@ -2,6 +2,7 @@ package main
 
 import (
 	"fmt"
+	"math"
 
 	"github.com/tidwall/geojson"
 	"github.com/tidwall/geojson/geometry"
@@ -152,6 +153,21 @@ var c10Queries = func() []geometry.Rect {
 			}
 		}
 	}
+	// query rectangles without bounds on some or all sides ("everything", half
+	// planes, strips, quadrants) and the inverted whole-plane rectangle
+	inf := math.Inf(1)
+	for _, x0 := range []float64{-inf, -3} {
+		for _, y0 := range []float64{-inf, -3} {
+			for _, x1 := range []float64{inf, 3, 0} {
+				for _, y1 := range []float64{inf, 3, 0} {
+					if x0 == -inf || y0 == -inf || x1 == inf || y1 == inf {
+						out = append(out, geometry.Rect{Min: gpt(x0, y0), Max: gpt(x1, y1)})
+					}
+				}
+			}
+		}
+	}
+	out = append(out, geometry.Rect{Min: gpt(inf, inf), Max: gpt(-inf, -inf)}, geometry.Rect{Min: gpt(inf, -inf), Max: gpt(inf, inf)}, geometry.Rect{Min: gpt(-inf, -inf), Max: gpt(-inf, -inf)})
 	return out
 }()
 
